@@ -794,7 +794,7 @@ def _conjuncts(c):
     return [c]
 
 
-@rule("S4", ["C17"], floor=3, doc="navigation never panics, unwrap sites: every Option::unwrap/expect in Introspector::dive / do_introspect / "
+@rule("S4", ["C17"], floor=2, doc="navigation never panics, unwrap sites: every Option::unwrap/expect in Introspector::dive / do_introspect / "
       "total_index is justified by the code around it: (a) `x.take().unwrap()` in a loop runs at most once per call because it is "
       "guarded by `flag.is_none()` and the branch sets `flag = Some(..)` first, with no reset of the flag; (b) `v.last_mut().unwrap()` "
       "/ `v.pop().unwrap()` follows a push to the same vector (directly, or through a boolean that is only set next to such a push)")
